@@ -250,11 +250,32 @@ def n3_module(chk, tier: str, seed: int, cap_s: int = 900) -> list[str]:
     return ["Ampverif.Props.C09N3"]
 
 
+def thorough_modules(chk, tier: str, seed: int) -> list[str]:
+    """Thorough tier: n = 3 entries (capped subprocess) and the full formulate(n, n_R) for n_R = 3, 4."""
+    mods = n3_module(chk, tier, seed)
+    if tier != "thorough":
+        chk.info("poles_3_4_formulate", "not regenerated in the quick tier (Props/C09P34 is a thorough-tier module)")
+        return mods
+    from tools.corr import C09_p34
+
+    before = chk.coverage["evaluations"]
+    try:
+        C09_p34.regenerate_and_validate(chk, seed, 10)
+    except Exception as e:  # noqa: BLE001
+        chk.broken_correspondence("translator", f"n_R = 3, 4 translation failed: {type(e).__name__}: {e}"[:600])
+        return mods
+    chk.info("poles_3_4_formulate", {"validation_points": chk.coverage["evaluations"] - before})
+    return [*mods, "Ampverif.Props.C09P34"]
+
+
 def n3_regenerate(cap_s: int = 900):
     try:
         _run_n3(["0", "0", "novalidate"], cap_s)
     except subprocess.TimeoutExpired:
         print("C09: n = 3 definitions not regenerated (time cap); the committed copy stays")
+    from tools.corr import C09_p34
+
+    C09_p34.regenerate()
 
 
 def signature_of(f: dict) -> dict:
@@ -295,7 +316,7 @@ PROP = KProperty(
     signature_of=signature_of,
     n_points={"quick": 6, "thorough": 40},
     n_search={"quick": 60, "thorough": 900},
-    extra_modules=n3_module,
+    extra_modules=thorough_modules,
     extra_regenerate=n3_regenerate,
     trusted=(
         "phase-space factors and form factors are leaves of the Lean model (their reality/positivity above threshold are hypotheses; C11/C12 are about them)",
